@@ -12,6 +12,7 @@ package main
 
 import (
 	"bytes"
+	"encoding"
 	"encoding/base64"
 	"encoding/json"
 	"errors"
@@ -27,6 +28,7 @@ import (
 	"sync"
 	"time"
 	"unicode/utf16"
+	"unicode/utf8"
 
 	"verif/gen/blocks"
 	"verif/kit"
@@ -88,6 +90,12 @@ type val struct {
 	cls   string        // class of the value, used in failure keys
 	rv    reflect.Value // the zero Value is the untyped nil
 	kids  []*val
+	// forceCls, when set, is the class used in the key when the value itself
+	// (not a value inside it) is the smallest one with the problem.
+	forceCls string
+	// jsonRef: in JavaScript too the referee is encoding/json (the evaluated
+	// value must be the data json.Marshal's output decodes to).
+	jsonRef bool
 }
 
 func (v *val) iface() any {
@@ -132,7 +140,7 @@ func baseValues() []*val {
 		base("float32:0.1", "float", float32(0.1)), base("float32:max", "float", float32(math.MaxFloat32)), base("float32:NaN", "float:non-finite", float32(math.NaN())),
 		base("float32:-Inf", "float:non-finite", float32(math.Inf(-1))),
 		base(`string:""`, "string", ""), base(`string:"a"`, "string", "a"), base("string:</script>", "string", "</script><!--<script>"),
-		base("string:U+2028 U+2029", "string", "\u2028\u2029"), base("string:non-UTF-8", "string", "a\xffb\xc3"), base("string:quotes", "string", "\x00\"'\\<>&\r\n\t\x7f"),
+		base("string:U+2028 U+2029", "string:U+2028/U+2029", "\u2028\u2029"), base("string:non-UTF-8", "string:invalid UTF-8", "a\xffb\xc3"), base("string:quotes", "string:control character", "\x00\"'\\<>&\r\n\t\x7f"),
 		base("string:astral", "string", "\U0001F600é"), base(`MyString:"x"`, "string", MyString("x\"")),
 		base("[]byte:nil", "[]byte:nil", []byte(nil)), base("[]byte:empty", "[]byte", []byte{}), base("[]byte:{1,2,255}", "[]byte", []byte{1, 2, 255}),
 		base("MyBytes:{1,2}", "named []byte", MyBytes{1, 2}), base("[2]byte", "array", [2]byte{1, 2}),
@@ -156,7 +164,7 @@ func baseValues() []*val {
 		base("map[string]int{__proto__}", "map[string] with key __proto__", map[string]int{"__proto__": 1}),
 		base("map[string]any{__proto__:nil}", "map[string] with key __proto__", map[string]any{"__proto__": nil, "a": 1}),
 		base("map[string]int{a,2,10}", "map[string]", map[string]int{"a": 3, "2": 1, "10": 2}),
-		base("map[string]int{</script>}", "map[string]", map[string]int{"</script>\u2028\"": 1, "\xff": 2}),
+		base("map[string]int{</script>}", "map[string] with key:invalid UTF-8", map[string]int{"</script>\u2028\"": 1, "\xff": 2}),
 		base("map[MyString]int", "map[string]", map[MyString]int{"z": 1, "y": 2}),
 		base("map[bool]int", "map[bool]", map[bool]int{true: 1, false: 2}),
 		base("map[int]int", "map[int]", map[int]int{2: 1, -1: 2}), base("map[int8]int", "map[int]", map[int8]int{-128: 1, 127: 2}),
@@ -201,10 +209,15 @@ func classOf(v reflect.Value) string {
 			return "time.Time:with fraction of a second"
 		}
 		return "time.Time:whole seconds"
-	case t.Implements(errorT):
-		return "error"
 	case t.Implements(reflect.TypeFor[json.Marshaler]()):
 		return "json.Marshaler implementer"
+	case t.Implements(reflect.TypeFor[encoding.TextMarshaler]()):
+		return "encoding.TextMarshaler implementer"
+	case t.Implements(errorT):
+		if v.Kind() == reflect.Pointer && v.IsNil() {
+			return "error"
+		}
+		return "error" + contentSuffix(v.Interface().(error).Error())
 	}
 	switch v.Kind() {
 	case reflect.Bool:
@@ -231,7 +244,7 @@ func classOf(v reflect.Value) string {
 		}
 		return "float"
 	case reflect.String:
-		return "string"
+		return "string" + contentSuffix(v.String())
 	case reflect.Complex64, reflect.Complex128:
 		return "complex"
 	case reflect.Func:
@@ -248,6 +261,8 @@ func classOf(v reflect.Value) string {
 			return "named []byte"
 		case v.IsNil():
 			return "typed nil"
+		case ptrMarshaler(t.Elem()):
+			return "slice whose element type has a pointer-receiver marshaler"
 		}
 		return "slice"
 	case reflect.Array:
@@ -274,6 +289,13 @@ func classOf(v reflect.Value) string {
 			if v.MapIndex(reflect.ValueOf("__proto__").Convert(k)).IsValid() {
 				return "map[string] with key __proto__"
 			}
+			for _, c := range []string{"invalid UTF-8", "control character", "U+2028/U+2029", "U+FEFF"} { // map order must not matter
+				for _, mk := range v.MapKeys() {
+					if contentClass(mk.String()) == c {
+						return "map[string] with key:" + c
+					}
+				}
+			}
 			return "map[string]"
 		case k.Kind() == reflect.Bool:
 			return "map[bool]"
@@ -296,6 +318,41 @@ func classOf(v reflect.Value) string {
 		return "struct"
 	}
 	return v.Kind().String()
+}
+
+// contentClass names what is unusual in a string.
+func contentClass(s string) string {
+	if !utf8.ValidString(s) {
+		return "invalid UTF-8"
+	}
+	cls := ""
+	for _, r := range s {
+		switch {
+		case r < 0x20 || r == 0x7f:
+			return "control character"
+		case r == 0x2028 || r == 0x2029:
+			cls = "U+2028/U+2029"
+		case r == 0xFEFF && cls == "":
+			cls = "U+FEFF"
+		}
+	}
+	return cls
+}
+
+func contentSuffix(s string) string {
+	if c := contentClass(s); c != "" {
+		return ":" + c
+	}
+	return ""
+}
+
+// ptrMarshaler reports whether *t, but not t, implements json.Marshaler or
+// encoding.TextMarshaler (encoding/json uses it for addressable values, such
+// as slice elements).
+func ptrMarshaler(t reflect.Type) bool {
+	jm, tm := reflect.TypeFor[json.Marshaler](), reflect.TypeFor[encoding.TextMarshaler]()
+	p := reflect.PointerTo(t)
+	return !t.Implements(jm) && !t.Implements(tm) && (p.Implements(jm) || p.Implements(tm))
 }
 
 // children returns the values directly inside v.
@@ -541,10 +598,14 @@ type (
 	wAny   struct{} // no firm expectation (trusted code)
 	wBool  bool
 	wNum   float64
-	wStr   string
-	wDate  string
-	wArr   []any
-	wObj   struct {
+	wInt   struct { // an integer: f is the nearest float64
+		f     float64
+		exact *big.Int
+	}
+	wStr  string
+	wDate string
+	wArr  []any
+	wObj  struct {
 		keys    []string
 		vals    []any
 		anyKeys int // > 0: the key texts are not modelled, only their number
@@ -687,9 +748,9 @@ func expectJS(v reflect.Value) any {
 	case reflect.Bool:
 		return wBool(v.Bool())
 	case reflect.Int, reflect.Int8, reflect.Int16, reflect.Int32, reflect.Int64:
-		return wNum(float64(v.Int()))
+		return wInt{float64(v.Int()), big.NewInt(v.Int())}
 	case reflect.Uint, reflect.Uint8, reflect.Uint16, reflect.Uint32, reflect.Uint64, reflect.Uintptr:
-		return wNum(float64(v.Uint()))
+		return wInt{float64(v.Uint()), new(big.Int).SetUint64(v.Uint())}
 	case reflect.Float32:
 		f := v.Float()
 		if !math.IsNaN(f) && !math.IsInf(f, 0) {
@@ -840,6 +901,8 @@ func compareJS(want, got any, path string) (kind, desc string) {
 		if g != bool(w) {
 			return mism("boolean differs", fmt.Sprintf("expected %v found %v", w, g))
 		}
+	case wInt:
+		return compareJS(wNum(w.f), got, path)
 	case wNum:
 		g, ok := got.(nodejs.Num)
 		if !ok {
@@ -1211,6 +1274,9 @@ func (s *shown) judge() (problem, detail string) {
 	if s.codeErr != nil {
 		return "the value ends the <script> element", s.codeErr.Error()
 	}
+	if !utf8.Valid(s.code) {
+		return "the output is not valid UTF-8", fmt.Sprintf("first invalid byte at offset %d", firstInvalid(s.code))
+	}
 	if s.c.js {
 		if s.js.Err != nil {
 			if s.js.Err.Phase == "parse" {
@@ -1219,16 +1285,35 @@ func (s *shown) judge() (problem, detail string) {
 			name, _, _ := strings.Cut(s.js.Err.Msg, ":")
 			return "evaluating the expression throws " + name, "node: " + s.js.Err.Msg
 		}
-		k, d := compareJS(expectJS(s.v.rv), s.js.Value, "$")
+		want := expectJS(s.v.rv)
+		if s.v.jsonRef {
+			if mb, err := json.Marshal(s.v.iface()); err == nil {
+				want = mergeWant(wantFromJSON(mb), want)
+				if k, d := compareJS(want, s.js.Value, "$"); k != "" {
+					return "evaluates to other data than json.Marshal's output decodes to: " + k, d + "\njson.Marshal gives " + string(mb)
+				}
+				return "", ""
+			}
+		}
+		k, d := compareJS(want, s.js.Value, "$")
 		if k != "" {
 			return "evaluates to other data: " + k, d
+		}
+		if json.Valid(s.code) { // a literal without Date/undefined: its integers can be read exactly
+			if dec, err := decodeExact(s.code); err == nil {
+				if d := exactInts(want, dec, "$"); d != "" {
+					return "an integer literal does not denote the exact value", d
+				}
+			}
 		}
 		return "", ""
 	}
 	if !json.Valid(s.code) {
 		return "not valid JSON", "json.Valid reports false"
 	}
-	if scan(s.v.rv, implementsJSONCode) || scan(s.v.rv, func(t reflect.Type) bool { return t.Implements(errorT) }) {
+	if scan(s.v.rv, implementsJSONCode) || scan(s.v.rv, func(t reflect.Type) bool {
+		return t.Implements(errorT) && !t.Implements(reflect.TypeFor[json.Marshaler]()) && !t.Implements(reflect.TypeFor[encoding.TextMarshaler]())
+	}) {
 		return "", "valid only" // trusted JSON code / error values shown as their message: no encoding/json counterpart
 	}
 	mb, err := json.Marshal(s.v.iface())
@@ -1261,17 +1346,17 @@ func (c *shownIn) alone(v *val) (problem, detail string) {
 
 // culprit descends to the smallest value inside v that has a problem on its
 // own and returns it with that problem.
-func (c *shownIn) culprit(v reflect.Value, problem, detail string) (reflect.Value, string, string) {
+func (c *shownIn) culprit(v reflect.Value, jsonRef bool, problem, detail string) (reflect.Value, string, string) {
 	for _, k := range children(v) {
 		if k.Kind() == reflect.Interface && !k.IsNil() {
 			k = k.Elem()
 		}
-		kv := &val{label: "sub-value", rv: k}
+		kv := &val{label: "sub-value", rv: k, jsonRef: jsonRef}
 		if k.Kind() == reflect.Interface { // nil interface
 			kv.rv = reflect.Value{}
 		}
 		if p, d := c.alone(kv); p != "" {
-			return c.culprit(kv.rv, p, d)
+			return c.culprit(kv.rv, jsonRef, p, d)
 		}
 	}
 	return v, problem, detail
@@ -1369,6 +1454,9 @@ func (s *shown) outcome() kit.Outcome {
 	problem, detail := s.judge()
 	if problem == "" {
 		cl := "valid, same data"
+		if s.c.js && losesPrecision(s.v.rv) {
+			cl = "valid, same data; an exact integer literal beyond 2^53 evaluates to the nearest double (inherent to JavaScript numbers)"
+		}
 		if detail == "not judged" {
 			cl = "not judged (empty trusted code inside)"
 		} else if detail == "valid only" {
@@ -1380,7 +1468,7 @@ func (s *shown) outcome() kit.Outcome {
 		}
 		return kit.Outcome{OK: true, Class: lang + ": " + cl, Nontrivial: true, Ops: len(s.out)}
 	}
-	cu, cproblem, cdetail := s.c.culprit(s.v.rv, problem, detail)
+	cu, cproblem, cdetail := s.c.culprit(s.v.rv, s.v.jsonRef, problem, detail)
 	cuv := &val{rv: cu}
 	inner := ""
 	if cu != s.v.rv {
@@ -1392,8 +1480,18 @@ func (s *shown) outcome() kit.Outcome {
 		mode = "the concrete type"
 		decl = fmt.Sprintf("(*%s)(nil)", s.v.rv.Type())
 	}
+	cls := classOf(cu)
+	if cu == s.v.rv && s.v.forceCls != "" {
+		cls = s.v.forceCls
+		if s.v.jsonRef && cproblem != "the output is not valid UTF-8" {
+			cproblem = "differs from encoding/json" // the class names the defect; how it differs is in the detail
+		}
+	}
+	if cproblem == "the output is not valid UTF-8" {
+		cls = "string content: invalid UTF-8" // one defect, whatever the position of the string
+	}
 	return kit.Outcome{
-		Key:        lang + "|" + cproblem + "|" + classOf(cu),
+		Key:        lang + "|" + cproblem + "|" + cls,
 		Class:      "fail",
 		Nontrivial: true,
 		Ops:        len(s.out),
@@ -1422,18 +1520,21 @@ func spaces(tier string) []kit.Space {
 		}
 		c.anyTmpl = t
 	}
-	return []kit.Space{
+	return append([]kit.Space{
 		valueSpace(fmt.Sprintf("values to depth %d x 4 contexts x {any, concrete type}", depth), universe(depth)),
 		valueSpace("long byte slices and strings, alone and in every constructor x 4 contexts x {any, concrete type}", longValues()),
-	}
+	}, round2Spaces()...)
 }
 
-func valueSpace(name string, u []*val) kit.Space {
-	per := uint64(len(contexts) * 2)
+func valueSpace(name string, u []*val, ctxs ...*shownIn) kit.Space {
+	if len(ctxs) == 0 {
+		ctxs = contexts
+	}
+	per := uint64(len(ctxs) * 2)
 	size := uint64(len(u)) * per
 	at := func(i uint64) *shown {
 		r := i % per
-		return &shown{v: u[i/per], c: contexts[r/2], static: r%2 == 1}
+		return &shown{v: u[i/per], c: ctxs[r/2], static: r%2 == 1}
 	}
 	cache := &blocks.Cache[*shown]{}
 	compute := func(from, to uint64) []*shown {
@@ -1473,10 +1574,14 @@ func main() {
 	kit.Main(&kit.Check{
 		ID:    "C08",
 		Level: "model_checking",
-		Rule:  "value universe = 101 base values (untyped nil; bools; min/max of every int and uint width, 2^53+1, uintptr; floats 0, -0, 1.5, 1e21, max, smallest denormal, NaN, ±Inf, float32 0.1/max/NaN/-Inf; strings empty, </script><!--<script>, U+2028/9, non-UTF-8, quotes and controls, astral; named string/int/[]byte; nil/empty/non-empty []byte; typed nil pointer/slice/map; time.Time in UTC, +02:00 with milliseconds, -03:30, year 0, year 10000, year -1, zone offset with seconds; error values; trusted native.JS/JSON and JSStringer/JSONStringer; a json.Marshaler; complex, func, chan; maps with <= 3 entries for every key kind: string incl. \"\", __proto__, integer-like and </script> keys, named string, bool, every int/uint width, uintptr, float32/64, complex64/128, a Stringer struct, interface, array) closed under 11 constructors ([]any{x}, []T{x}, []T{zero,x}, [1]T{x}, &x, map[string]any{k:x}, map[string]T{b:x,a:zero}, struct with json tags rename/omitempty/-/untagged/option-only/unexported, struct embedding a struct, struct of nil and non-nil *T fields with and without omitempty, struct of any fields) plus all 36 two-element []any over 6 representatives, to depth 2 (quick) / 3 (thorough); plus, in both tiers, []byte values of 255, 256, 257, 511, 512, 513, 767, 768, 769, 1023, 1024, 1025, 3000 and 5000 bytes with position-dependent content, strings of the same byte lengths with every escaped character spread over them, and a named []byte of 1025 bytes, each alone and inside each of the 11 constructors; each value x {JS in <script>, JS in .js, JSON in .json, JSON in <script type=application/ld+json>} x {global of type any, global of the value's concrete type}. Non-trivial = the template built and ran, so an oracle judged the output",
+		Rule:  "value universe = 101 base values (untyped nil; bools; min/max of every int and uint width, 2^53+1, uintptr; floats 0, -0, 1.5, 1e21, max, smallest denormal, NaN, ±Inf, float32 0.1/max/NaN/-Inf; strings empty, </script><!--<script>, U+2028/9, non-UTF-8, quotes and controls, astral; named string/int/[]byte; nil/empty/non-empty []byte; typed nil pointer/slice/map; time.Time in UTC, +02:00 with milliseconds, -03:30, year 0, year 10000, year -1, zone offset with seconds; error values; trusted native.JS/JSON and JSStringer/JSONStringer; a json.Marshaler; complex, func, chan; maps with <= 3 entries for every key kind: string incl. \"\", __proto__, integer-like and </script> keys, named string, bool, every int/uint width, uintptr, float32/64, complex64/128, a Stringer struct, interface, array) closed under 11 constructors ([]any{x}, []T{x}, []T{zero,x}, [1]T{x}, &x, map[string]any{k:x}, map[string]T{b:x,a:zero}, struct with json tags rename/omitempty/-/untagged/option-only/unexported, struct embedding a struct, struct of nil and non-nil *T fields with and without omitempty, struct of any fields) plus all 36 two-element []any over 6 representatives, to depth 2 (quick) / 3 (thorough); plus, in both tiers, []byte values of 255, 256, 257, 511, 512, 513, 767, 768, 769, 1023, 1024, 1025, 3000 and 5000 bytes with position-dependent content, strings of the same byte lengths with every escaped character spread over them, and a named []byte of 1025 bytes, each alone and inside each of the 11 constructors; each value x {JS in <script>, JS in .js, JSON in .json, JSON in <script type=application/ld+json>} x {global of type any, global of the value's concrete type}. Round 2 spaces (both tiers): (1) struct tags: 34 tags (,string; omitempty in every position of the option list, with string/omitzero/unknown options, alone, and as a NAME; omitzero; the tags -, '-,' and '-,omitempty'; empty names; no json key; unknown and space-padded options; names with punctuation, unicode letters, quotes/backslash/emoji; integer-like name) x 31 field values (an empty and a non-empty value of int, string, bool, float incl. -0, uint8, int64 max, *int, []int nil/empty/non-empty, map nil/empty/non-empty, [0]int, [2]int, struct, an IsZero implementer, time.Time, any) plus 18 structs with embedded struct / *struct (nil and not) with and without tags, shadowed and conflicting promoted names, unexported and non-struct embedded types, duplicate and case-differing names, in .js and .json; (2) 83 unusual strings (every C0 control character, U+007F, U+0080, U+0085, U+00A0, U+2028, U+2029, U+FEFF first and inside, U+FFFD, U+FFFE, U+FFFF, astral, seven kinds of invalid UTF-8 incl. overlong, truncated and WTF-8/CESU-8 surrogates, </script>, </SCRIPT >, <script>, <!--, -->, ]]>, <![CDATA[, entities, quotes, backslash-u, template-literal and comment delimiters, CR LF) x 12 positions (string, named string, map key alone and beside another, map value, []string element, struct fields with and without omitempty, text of errors.New and of a struct error, error in a slice, String() of a map key, any in a struct) in all 4 contexts; (3) numbers: int64/int/named int64 around ±2^53 and at min/max, uint64/uint/uintptr/named at 2^53+1, 2^63, 2^64-1 and neighbours, 30 float64 and 16 float32 values at the limits of the shortest representation (denormals, max, 1e21..1e23, 1e-6/1e-7, 0.1+0.2, -0, 2^24+1 as float32) and their named types, each alone, in a slice, in a struct with omitempty and as map key and value, in .js and .json; (4) named string/bool/int/map/slice/array/struct/time/pointer/any/[]uint16/[2]byte/[][]byte types, the 16 struct types implementing every subset of {json.Marshaler, encoding.TextMarshaler, fmt.Stringer, error}, string- and int-kinded error/Stringer/TextMarshaler types, pointer-receiver marshalers, maps keyed by TextMarshalers, Stringers, named ints/bools and integers, each alone, behind a pointer, as a nil pointer, in a struct and in a slice, in .js and .json; (5) writers: the template [{{ v }},{{ w }}] in the 4 contexts with 8 values of 14 sizes, 8 runs back to back and 8 goroutines x 4 rounds through a blocking writer that reads the slice only after yielding, compared with a copying writer. Non-trivial = the template built and ran, so an oracle judged the output",
 		Assumptions: []string{
 			"JavaScript oracle: /usr/bin/node v20 parses the output both as `[OUT\\n]` (exactly one element) and as `(OUT\\n)`, i.e. as exactly one AssignmentExpression, evaluates it, and the value is compared structurally (numbers by IEEE bits so -0 and NaN count, strings by UTF-16 code units, Date by toISOString, objects by Object.keys order and prototype) with the data model: nil → null; bool; every int/uint/float kind → the nearest float64 (float32 through its shortest decimal form, as encoding/json does); string → string (a non-UTF-8 byte → U+FFFD); error → its message; []byte → base64 string; other slices, arrays → array (nil slice → null); pointer → pointee or null; time.Time → Date of the same instant truncated to milliseconds; map → object whose properties are in ascending key order (integer-like keys first, ascending, as ECMAScript orders own properties), keys being the string / decimal / true|false / String() text; struct → object of the exported fields in field order honouring json tags (name, -, omitempty with encoding/json's notion of empty); complex, func, chan → undefined",
 			"where JavaScript has no standard counterpart the model follows the renderer and does not judge it: an embedded struct is a property named after its type, a named []byte is an array of numbers, a nil []byte is \"\"; map keys of complex kind are only counted (the object must have as many own properties as the map has entries); trusted code (native.JS, JSStringer) is only required to parse and evaluate",
+			"every output must be valid UTF-8 (RFC 8259 §8.1 for JSON; a JavaScript source with other bytes is changed by the decoder before it is parsed); keyed apart from the data comparison, which treats an invalid byte as U+FFFD exactly as encoding/json (JSON) and the WHATWG decoder (JS) do",
+			"integers beyond 2^53: the statement asks JavaScript for the corresponding data, and a double is all JavaScript has, so an exact literal that evaluates to the nearest double is not judged a breach (classed apart: 'an exact integer literal beyond 2^53 evaluates to the nearest double'); but the literal itself must denote the exact Go integer (read back with encoding/json when the output is also JSON), key 'an integer literal does not denote the exact value'. For JSON the rational value of every number must equal encoding/json's",
+			"struct tag space: encoding/json referees the JavaScript context too (which members, under which names, with which values), except that a time.Time is a Date; the key names the tag class, the detail says how the data differ",
+			"writers: io.Writer forbids an implementation to retain p after Write returns, and encoding/base64's encoder (through which []byte values are written) legally reuses its buffer between Writes, so a writer that reads the slice after Write has returned is NOT used (it fails on a correct renderer); the blocking writer reads late but within Write. The concurrent case is a race by nature: it passes deterministically on a correct tree, a shared buffer is found with high but not certain probability per run",
 			"JSON oracle: json.Valid(output), and when json.Marshal accepts the value the two texts must decode (UseNumber, numbers compared as exact rationals) to equal data. Values containing trusted JSON code (native.JSON, JSONStringer) or error values (shown as their message by design, encoding/json has no counterpart) are only required to be valid JSON",
 			"a Run error is classed apart and not judged here (C09); a build rejection of the concrete type is fine",
 			"a value containing a nil pointer whose type has an Error, JS or JSON method makes Run panic inside that host method (fmt and encoding/json check for nil first; scriggo propagates panics of host code): such cases are classed apart and not judged; an empty native.JS / native.JSON (zero value of a trusted-code type) is not valid code and is not judged either",
